@@ -657,8 +657,8 @@ def decodeStep (reset : Bool) (s : DecState) (c : Call) : DecState × R Bytes :=
   match lookupN c.depth Gen.BitdTables.decoders with
   | none => (s, .error .value)                       -- "Bad BPP value"
   | some cls =>
-    let (b, r) := decodeClass cls reset { c with palette := paletteName c } (s c.depth)
-    (s.set c.depth b, r)
+    let x := decodeClass cls reset { c with palette := paletteName c } (s c.depth)
+    (s.set c.depth x.1, x.2)
 
 /-- the function a caller sees in a fresh process -/
 def bitd2bmp (c : Call) : R Bytes := (decodeStep true DecState.init c).2
